@@ -33,7 +33,7 @@ WORLD_INFO = {'real': ['Session.execute_async/_create_response_future/_maybe_get
 ASSUMPTIONS = ['timeout tolerance 60 ms of virtual time', 'fetch_size has no profile level: unset means session.default_fetch_size']
 REQUIRED_PROBES = ['prepared_options_set_after_a_bind', 'statement_overrides_consistency', 'consistency_any', 'bound_inherits_prepared', 'statement_retry_policy', 'timeout_argument',
                    'profile_timeout', 'speculative_for_idempotent', 'no_speculative_for_non_idempotent', 'named_profile', 'cloned_profile',
-                   'legacy_mode', 'batch_statement', 'paging_disabled']
+                   'legacy_mode', 'batch_statement', 'paging_disabled', 'timeout_expires_before_next_speculative_attempt']
 
 CLS = [0, 1, 4, 6, 10]          # ANY ONE QUORUM LOCAL_QUORUM LOCAL_ONE
 SERIALS = [8, 9]
@@ -61,7 +61,9 @@ def gen_level(rng, with_fetch=True):
 
 def gen_profile(rng, n, name):
     return {'name': name, 'cl': rng.choice(CLS[1:]), 'serial': rng.choice([None] + SERIALS), 'timeout': rng.choice([0.6, 1.1, 2.3]),
-            'first': rng.randrange(n), 'spec': rng.random() < 0.6, 'row': rng.choice(['named', 'tuple', 'dict'])}
+            'first': rng.randrange(n), 'spec': rng.random() < 0.6, 'row': rng.choice(['named', 'tuple', 'dict']),
+            # the speculative plan may still have attempts left when the timeout in effect expires (delay longer than what remains)
+            'spec_delay': rng.choice([0.05, 0.05, 0.2, 0.5, 1.5]), 'spec_attempts': rng.choice([1, 1, 2, 3])}
 
 
 def gen_plan(rng, tier):
@@ -153,12 +155,12 @@ def run_plan(plan, seed, choices=None):
             return self._note(query, 'on_request_error')
 
     class TagSpec(cpol.SpeculativeExecutionPolicy):
-        def __init__(self, tag):
-            self.tag = tag
+        def __init__(self, tag, delay=0.05, attempts=1):
+            self.tag, self.delay, self.attempts = tag, delay, attempts
 
         def new_plan(self, keyspace, statement):
             consulted['spec'].append((sim.nlog, self.tag, rid_of(statement)))
-            return cpol.ConstantSpeculativeExecutionPolicy.ConstantSpeculativeExecutionPlan(0.05, 1)
+            return cpol.ConstantSpeculativeExecutionPolicy.ConstantSpeculativeExecutionPlan(self.delay, self.attempts)
 
     class TagLBP(cpol.LoadBalancingPolicy):
         def __init__(self, tag, first):
@@ -210,7 +212,7 @@ def run_plan(plan, seed, choices=None):
         return ccl.ExecutionProfile(load_balancing_policy=TagLBP('profile:%s' % p['name'], p['first']), retry_policy=TagRetry('profile:%s' % p['name']),
                                     consistency_level=p['cl'], serial_consistency_level=p['serial'], request_timeout=p['timeout'],
                                     row_factory=ROWF[p['row']],
-                                    speculative_execution_policy=TagSpec('profile:%s' % p['name']) if p['spec'] else None)
+                                    speculative_execution_policy=TagSpec('profile:%s' % p['name'], p.get('spec_delay', 0.05), p.get('spec_attempts', 1)) if p['spec'] else None)
 
     def apply_level(stmt, lvl, tag):
         if lvl['cl'] is not None:
@@ -233,7 +235,7 @@ def run_plan(plan, seed, choices=None):
                     ccl.EXEC_PROFILE_DEFAULT if c['base'] == 'default' else 'p1',
                     consistency_level=c['cl'], serial_consistency_level=c['serial'], request_timeout=c['timeout'],
                     row_factory=ROWF[c['row']], retry_policy=TagRetry('profile:clone'),
-                    speculative_execution_policy=TagSpec('profile:clone') if c['spec'] else None)
+                    speculative_execution_policy=TagSpec('profile:clone', c.get('spec_delay', 0.05), c.get('spec_attempts', 1)) if c['spec'] else None)
             else:
                 sim.probe('legacy_mode')
                 d = profs['default']
@@ -287,6 +289,7 @@ def run_plan(plan, seed, choices=None):
                     kw['execution_profile'] = {'default': ccl.EXEC_PROFILE_DEFAULT, 'p1': 'p1', 'clone': st['clone']}[r['profile']]
                 t0 = sim.vnow()
                 s0 = sim.nlog
+                st['pending'] = (i, t0)
                 try:
                     rs = session.execute(stmt, params, **kw)
                     rows = list(rs.current_rows or [])
@@ -302,6 +305,17 @@ def run_plan(plan, seed, choices=None):
     if st.get('connect_error'):
         raise HarnessError('connect failed: %s' % st['connect_error'])
     if status != 'done':
+        pend = st.get('pending')
+        if pend is not None and pend[0] not in st.get('res', {}) and sim.vnow() - pend[1] > 60:
+            # every request has a timeout in effect (at most 2.3 s): execute() that has not returned a minute later never will
+            i, r = pend[0], plan['requests'][pend[0]]
+            e = expected(plan, r)
+            V.check('C46/timeout')
+            V.add('C46/timeout', 'no-timeout:never-completed', 'execute() of request %d (%s, probe %s, idempotent %r, profile %s, timeout argument %r) had not returned '
+                  '%.0f s after the call although the timeout in effect is %.2f s' % (i, r['kind'], r['probe'], e['idempotent'], r['profile'], r['timeout_arg'],
+                                                                                     sim.vnow() - pend[1], e['timeout']))
+            return {'violations': V.items, 'rules_checked': V.checked, 'nontrivial': True, 'faults': dict(w.net.fault_counts),
+                    'summary': {'status': status, 'requests': len(plan['requests']), 'mode': plan['mode']}, 'stratum': plan['mode']}
         raise HarnessError('run did not finish: %s' % status)
     import cassandra
     nontrivial = False
@@ -369,6 +383,8 @@ def run_plan(plan, seed, choices=None):
         elif r['probe'] == 'silent':
             V.check('C46/timeout')
             (sim.probe('timeout_argument') if r['timeout_arg'] != UNSET else sim.probe('profile_timeout'))
+            if e['spec'] and e['timeout'] <= prof.get('spec_delay', 0.05) * prof.get('spec_attempts', 1):
+                sim.probe('timeout_expires_before_next_speculative_attempt')
             if res[0] != 'err' or not isinstance(res[1], cassandra.OperationTimedOut):
                 V.add('C46/timeout', 'no-timeout', 'expected OperationTimedOut after %.2f s, got %r; %s' % (e['timeout'], res[1], desc))
             elif abs((res[3] - res[2]) - e['timeout']) > 0.06:
@@ -392,9 +408,9 @@ def run_plan(plan, seed, choices=None):
                 sim.probe('speculative_for_idempotent')
                 if not sc or sc[0][1] != e['spec']:
                     V.add('C46/policy', 'wrong-speculative-policy', 'speculative plan came from %r, expected %r; %s' % (sc[:1], e['spec'], desc))
-                elif attempts < 2 and n >= 2 and e['timeout'] > 0.2:
-                    V.add('C46/policy', 'no-speculative-attempt', 'only %d attempt(s) reached the nodes although %r planned one after 0.05 s; %s'
-                          % (attempts, e['spec'], desc))
+                elif attempts < 2 and n >= 2 and e['timeout'] > prof.get('spec_delay', 0.05) + 0.15 and prof.get('spec_delay', 0.05) < 0.3:
+                    V.add('C46/policy', 'no-speculative-attempt', 'only %d attempt(s) reached the nodes although %r planned one after %.2f s; %s'
+                          % (attempts, e['spec'], prof.get('spec_delay', 0.05), desc))
             else:
                 if prof['spec'] and not e['idempotent']:
                     sim.probe('no_speculative_for_non_idempotent')
